@@ -1,11 +1,142 @@
-// Package c02: correspondence ops for C02 (stub, not yet built).
+// Package c02: inter-pod constraints hold in the simulated end state — whole real scheduling passes judged by the
+// Lean inter-pod specification, plus TopologyGroup op-sequence correspondence.
 package c02
 
 import (
+	"encoding/json"
+	"fmt"
+	"math/rand/v2"
+
 	"verifharness/internal/core"
 	"verifharness/internal/registry"
+	"verifharness/internal/world"
 )
 
 func init() { registry.Register("C02", Ops) }
 
-func Ops() []*core.Op { return nil }
+func implPass(raw json.RawMessage) (any, error) {
+	var s world.Scenario
+	if err := json.Unmarshal(raw, &s); err != nil {
+		return nil, err
+	}
+	w, err := world.Build(&s)
+	if err != nil {
+		return nil, err
+	}
+	res, err := w.Schedule()
+	if err != nil {
+		return world.Outcome{Err: err.Error()}, nil
+	}
+	return world.Extract(res), nil
+}
+
+var passOpts = world.GenOpts{InterPod: 0.75, NodeAffinity: 0.15, Existing: 0.6, Limits: 0.0, MaxPods: 6}
+
+func constraintLabels(s *world.Scenario) []string {
+	var l []string
+	seen := map[string]bool{}
+	add := func(x string) {
+		if !seen[x] {
+			seen[x] = true
+			l = append(l, x)
+		}
+	}
+	for _, p := range s.Pods {
+		for _, a := range p.Affinity {
+			kind := "affinity"
+			if a.Anti {
+				kind = "anti-affinity"
+			}
+			req := "preferred"
+			if a.Required {
+				req = "required"
+			}
+			add(fmt.Sprintf("%s-%s-%s", req, kind, shortKey(a.TopologyKey)))
+		}
+		for _, sp := range p.Spreads {
+			mode := "ScheduleAnyway"
+			if sp.DoNotSchedule {
+				mode = "DoNotSchedule"
+			}
+			add(fmt.Sprintf("spread-%s-%s", mode, shortKey(sp.TopologyKey)))
+			if sp.MinDomains != nil {
+				add("spread-minDomains")
+			}
+		}
+	}
+	return l
+}
+
+func shortKey(k string) string {
+	switch k {
+	case "topology.kubernetes.io/zone":
+		return "zone"
+	case "kubernetes.io/hostname":
+		return "hostname"
+	case "karpenter.sh/capacity-type":
+		return "capacity-type"
+	}
+	return k
+}
+
+func Ops() []*core.Op {
+	return []*core.Op{
+		{
+			Name: "c02.pass",
+			Doc:  "whole real Provisioner.Schedule passes on batches mixing required/preferred pod affinity, anti-affinity and topology spread (minDomains, inclusion policies) over existing pod distributions and 1-3 zones; end state judged by the inter-pod specification",
+			N:    func(t core.Tier) int { return map[core.Tier]int{core.Quick: 500, core.Thorough: 10000}[t] },
+			Gen:  func(r *rand.Rand, t core.Tier) any { return world.GenScenario(r, passOpts) },
+			Impl: implPass,
+			Rule: "non-trivial = at least two pods were placed and at least one placed pod carries a required inter-pod constraint or DoNotSchedule spread",
+			Nontrivial: func(raw json.RawMessage, impl any) bool {
+				var s world.Scenario
+				json.Unmarshal(raw, &s)
+				m, _ := impl.(map[string]any)
+				placed := map[string]bool{}
+				if e, ok := m["existing"].([]any); ok {
+					for _, x := range e {
+						if ps, ok := x.(map[string]any)["pods"].([]any); ok {
+							for _, p := range ps {
+								placed[p.(string)] = true
+							}
+						}
+					}
+				}
+				if c, ok := m["claims"].([]any); ok {
+					for _, x := range c {
+						if ps, ok := x.(map[string]any)["pods"].([]any); ok {
+							for _, p := range ps {
+								placed[p.(string)] = true
+							}
+						}
+					}
+				}
+				if len(placed) < 2 {
+					return false
+				}
+				for _, p := range s.Pods {
+					if !placed[p.Name] {
+						continue
+					}
+					for _, a := range p.Affinity {
+						if a.Required {
+							return true
+						}
+					}
+					for _, sp := range p.Spreads {
+						if sp.DoNotSchedule {
+							return true
+						}
+					}
+				}
+				return false
+			},
+			Labels: func(raw json.RawMessage, impl any) []string {
+				var s world.Scenario
+				json.Unmarshal(raw, &s)
+				return constraintLabels(&s)
+			},
+			Signature: func(raw json.RawMessage, impl any) string { return "pass" },
+		},
+	}
+}
